@@ -1,7 +1,7 @@
 from check import Job
 EXPLANATION = 'manifest_ttl for every expiry, wall-clock reading and sanitised window: the derived lifetime never extends beyond the manifest expiry, lies in [min, max], and only expired / too-short manifests are rejected; Node::ingest_manifest (lifted, partial Node with the real KademliaTable) changes state only on acceptance and the cached key shares then expire no later than the manifest'
 ASSUMPTIONS = ['manifest_ttl, enforce_manifest_ttl, validate_shards and Node::ingest_manifest are lifted textually from the current core/Node.cpp; protocol::decode_manifest is supplied by the harness (returns the harness-built manifest or throws; the codec is C17/C18); update_swarm_plan is a recording stub',
-               'ONLY the key-share clause and the rejection clause are decided: provider contacts (handle_announce), replica copies (receive_chunk) and pending fetches (process_pending_fetches) are not encoded',
+               'key shares (ingest_manifest, handle_announce), provider contacts (handle_announce: jobs announce-*, harness/node_announce.cpp) and replica copies / self-announcements (receive_chunk: job replica-*, harness/node_recv.cpp) are decided; pending fetches dropped at manifest expiry are decided in C24 (ticks-*); cached manifests / swarm plans in C05',
                'the TTL window is assumed sanitised (1 <= min <= max <= 86400 s, C02); kernel job: expiry and wall clock < 2^33 s with arbitrary sub-second parts; ingest job: wall clock and expiry whole seconds below 1024 s, window 1..255 s, 0..2 shards, symbolic threshold',
                'the steady and the system clock are read at the same instant inside one call (the harness does not advance them between reads)']
 SN = {'SNIP_K_MIN_TTL': ('src/core/Node.cpp', 're:^constexpr std::chrono::seconds kMinAllowedManifestTtl'), 'SNIP_ENFORCE_TTL': ('src/core/Node.cpp', 'enforce_manifest_ttl'), 'SNIP_MANIFEST_TTL': ('src/core/Node.cpp', 'manifest_ttl'), 'SNIP_VALIDATE_SHARDS': ('src/core/Node.cpp', 'validate_shards'), 'SNIP_INGEST': ('src/core/Node.cpp', 're:^[A-Za-z_:<>, 0-9]*\\bNode::ingest_manifest\\(')}
@@ -9,4 +9,11 @@ def jobs(tier):
     out = [Job('ttl-kernel', 'node_ingest.cpp', 'h_c03_ttl_kernel', [0], reach=['accepted', 'rejected'], snippets=SN, timeout=1500, bounds='all expiries / wall clocks < 2^33 s, all sanitised windows')]
     for s in ((0, 2) if tier == 'quick' else (0, 1, 2, 3)):
         out.append(Job('ingest-shards%d' % s, 'node_ingest.cpp', 'h_c03_ingest', [s], reach=['rejected'] + (['ingested'] if s else []), snippets=SN, timeout=1500, bounds='%d shards' % s))
+    # provider contacts and key shares learned from an ANNOUNCE (the real handle_announce, shared with C21) and replica copies
+    # (the real receive_chunk, shared with C11) expire no later than the manifest
+    from props.C21 import SNA
+    for ns, pc in (((2, 0),) if tier == 'quick' else ((1, 0), (2, 0), (1, 1))):
+        out.append(Job('announce-s%d-c%d' % (ns, pc), 'node_announce.cpp', 'h_c21_announce', [ns, pc], reach=['admitted', 'refused'], snippets=SNA, timeout=3000, bounds='one ANNOUNCE through the real handle_announce, %d shares, announced TTL 0..255 s, manifest life -4..59 s' % ns))
+    from props.C11 import SN as SN11
+    out.append(Job('replica-s1-l1', 'node_recv.cpp', 'h_c11_receive', [1, 1], reach=['refused', 'imported'], snippets=SN11, timeout=1500, bounds='one replica import through the real receive_chunk, 1 share, 1 ciphertext byte'))
     return out
